@@ -78,8 +78,21 @@ def path_guards(p, scope):
         if not isinstance(orig, ast.expr):
             out.add('<exception>')
             continue
-        for f in implied(orig, pol):
+        # a test on a plain local that merely names a condition (`flag = yaw is None; if flag:`) is read through the local
+        bare = orig.operand if isinstance(orig, ast.UnaryOp) and isinstance(orig.op, ast.Not) else orig
+        src = t if isinstance(bare, ast.Name) and isinstance(t, ast.expr) and not isinstance(t, ast.Name) else orig
+        for f in implied(src, pol):
             out.add(render_fact(f, scope))
+    return out
+
+
+def known_under(conds, scope):
+    """{canonical text of an atomic branch condition: 'True'/'False'} for the conditions a path has taken"""
+    out = {}
+    for t, pol, orig in conds:
+        if isinstance(t, ast.expr) and not isinstance(t, (ast.BoolOp, ast.Name, ast.Constant)):
+            neg = isinstance(t, ast.UnaryOp) and isinstance(t.op, ast.Not)
+            out[canon(t.operand if neg else t, scope).strip('()')] = str(pol != neg)
     return out
 
 
@@ -158,6 +171,10 @@ def summarise(model, func):
                     port = fold(d['port'][0], d['port'][1].defs.get('__scope__', scope)) if 'port' in d else 0
                     chan = fold(d['channel'][0], d['channel'][1].defs.get('__scope__', scope)) if 'channel' in d else 0
                     ds = data_summary(d['data'][0], d['data'][1].defs.get('__scope__', scope)) if 'data' in d else ('', [])
+                    if ds:
+                        # a field that repeats a condition the path has already decided has that truth value
+                        kn = known_under(e.conds, scope)
+                        ds = (ds[0], [kn.get(x.strip('()'), x) for x in ds[1]])
                     sent.append(((port, chan) + (ds if ds else ('?', [norm(d['data'][0])])), c))
         out.append((p, path_guards(p, scope), sent))
     return out, ex
@@ -280,7 +297,7 @@ def check(ctx):
     for n in [n for n in g.nodes if n.kind == 'raise']:
         atoms = set()
         for f in g.facts_at(n):
-            if isinstance(f.node, ast.BoolOp) and isinstance(f.node.op, ast.Or) and f.pol:
+            if isinstance(f.node, ast.BoolOp) and isinstance(f.node.op, ast.Or) and not f.pol:       # a disjunction that holds (kept in de Morgan form: negated conjunction)
                 for v in f.node.values:
                     atoms |= {render_fact(x, Scope.of(ss)) for x in implied(v, True)}
             else:
@@ -355,10 +372,11 @@ def check(ctx):
     # size check chain
     spf = m.func(CF, 'Crazyflie.send_packet')
     g = cfg_of(spf)
-    acq = g.find(lambda n: method_call(n, 'acquire'))
-    ctx.need(acq, 'send_packet: no acquire')
-    ok = fact_key('pk.is_data_size_valid()', True) in g.fact_keys_at(acq[0][0])
-    ctx.inst('R4', spf, 'size-check-before-lock', ok, 'oversize packets must be refused (raise) before the send lock is taken')
+    tx = g.find(lambda n: method_call(n, 'send_packet') and norm(n.func.value) == 'self.link')
+    ctx.need(tx, 'Crazyflie.send_packet: no transmission through self.link')
+    ok = all(fact_key('pk.is_data_size_valid()', True) in g.fact_keys_at(n) for n, _ in tx)
+    rs = [n for n in g.nodes if n.kind == 'raise' and fact_key('pk.is_data_size_valid()', False) in g.fact_keys_at(n)]
+    ctx.inst('R4', spf, 'size-check-before-lock', ok and len(rs) == 1, 'oversize packets must be refused (raise) and never reach the driver')
     chain = {
         'is_data_size_valid': 'self.available_data_size() >= 0',
         'available_data_size': 'self.MAX_DATA_SIZE - self.get_data_size()',
@@ -424,6 +442,10 @@ def summarise_scoped(model, func):
                     ds = data_summary(*d['data']) if 'data' in d else ('', [])
                     if ds is None:
                         ds = ('?', [norm(d['data'][0])])
+                    else:
+                        # a field that repeats a condition this path has already decided has that truth value
+                        kn = known_under(p.conds, scope)
+                        ds = (ds[0], [kn.get(x.strip('()'), x) for x in ds[1]])
                     sent.append(((port, chan, ds[0], ds[1]), c))
         out.append((p, path_guards(p, scope), sent))
     return out, ex
